@@ -35,14 +35,23 @@ func newGoStructObject(value reflect.Value) *goStructObject {
 }
 
 func (o goStructObject) getValue(name string) reflect.Value {
+	// FieldByIndexErr: a promoted field behind a nil embedded pointer is
+	// reported as absent (FieldByIndex / FieldByName panic on it).
 	if idx := fieldIndexByName(reflect.Indirect(o.value).Type(), name); len(idx) > 0 {
-		return reflect.Indirect(o.value).FieldByIndex(idx)
+		field, err := reflect.Indirect(o.value).FieldByIndexErr(idx)
+		if err != nil {
+			return reflect.Value{}
+		}
+		return field
 	}
 
 	if validGoStructName(name) {
 		// Do not reveal hidden or unexported fields.
-		if field := reflect.Indirect(o.value).FieldByName(name); field.IsValid() {
-			return field
+		if sf, ok := reflect.Indirect(o.value).Type().FieldByName(name); ok {
+			if field, err := reflect.Indirect(o.value).FieldByIndexErr(sf.Index); err == nil && field.IsValid() {
+				return field
+			}
+			return reflect.Value{}
 		}
 
 		if method := o.value.MethodByName(name); method.IsValid() {
